@@ -56,6 +56,7 @@ type DHCPSys struct {
 	CIDR   string
 	NUnits int
 	Nexus  bool // walled-garden mode: SetHTTPAllocator against the fake Nexus (nobody activated)
+	QosCap int  // > 0: QoS kernel maps behind the manager, the upload map holds only this many subscribers
 	events []core.Event
 }
 
@@ -74,6 +75,15 @@ func NewDHCPSys(kinds []string, cidr string, nunits int) *DHCPSys {
 	return s
 }
 
+// NewDHCPQosSys: the QoS manager writes into REAL kernel maps (as with a loaded BPF object) and the upload map has room for
+// only `cap` subscribers, so the policy of a further client is applied only in part (download bucket written, upload refused;
+// the server logs the error and the session goes on). Ending such a session must still remove what was written.
+func NewDHCPQosSys(kinds []string, cidr string, nunits, cap int) *DHCPSys {
+	s := NewDHCPSys(kinds, cidr, nunits)
+	s.QosCap = cap
+	return s
+}
+
 // NewDHCPNexusSys is the walled-garden variant of NewDHCPSys.
 func NewDHCPNexusSys(kinds []string, cidr string, nunits int) *DHCPSys {
 	s := NewDHCPSys(kinds, cidr, nunits)
@@ -82,6 +92,9 @@ func NewDHCPNexusSys(kinds []string, cidr string, nunits int) *DHCPSys {
 }
 
 func (s *DHCPSys) Name() string {
+	if s.QosCap > 0 {
+		return fmt.Sprintf("dhcp-qoscap%d/%s/%s", s.QosCap, strings.Join(s.Kinds, "+"), s.CIDR)
+	}
 	if s.Nexus {
 		return fmt.Sprintf("dhcp-nexus/%s/%s", strings.Join(s.Kinds, "+"), s.CIDR)
 	}
@@ -199,7 +212,7 @@ type dhcpInst struct {
 	xid    uint32
 	// client-side protocol memory
 	lastOffer map[int]int
-	lastAddr  map[int]int // the address last ACKed to the client (kept after the session ended, for the second end)
+	lastAddr  map[int]int  // the address last ACKed to the client (kept after the session ended, for the second end)
 	bound     map[int]bool // the client believes it holds a lease: ACKed, and since then it neither released / declined nor let the lease run out
 	ridOnly   bool         // build the next relayed message with an option 82 that has no circuit-id
 }
@@ -244,6 +257,19 @@ func (s *DHCPSys) New() core.Instance {
 	qm, err := qos.NewManager(qos.ManagerConfig{Interface: "lo"}, pol, logger)
 	if err != nil {
 		panic(err)
+	}
+	if s.QosCap > 0 {
+		for _, qmap := range []struct {
+			name, field string
+			max         int
+		}{{"qos_egress", "qosEgress", 64}, {"qos_ingress", "qosIngress", s.QosCap}} {
+			km, err := bpfnative.NewKernelMap(bpfnative.MapInfo{Name: qmap.name, Type: int(cebpf.Hash), KeySize: 4, ValueSize: binary.Size(qos.TokenBucket{}), MaxEntries: qmap.max})
+			if err != nil {
+				panic(fmt.Sprintf("INFRA: cannot create kernel map %s (needs CAP_BPF): %v", qmap.name, err))
+			}
+			in.maps[qmap.name] = km
+			core.Field(qm, qmap.field).Set(reflect.ValueOf(km))
+		}
 	}
 	srv.SetQoSManager(qm)
 	nm, err := nat.NewManager(nat.ManagerConfig{Interface: "lo", PortsPerSubscriber: 1024}, logger)
@@ -477,6 +503,27 @@ func (in *dhcpInst) observe() *obs {
 	for it.Next() {
 		ip := core.FieldOf(it.Value(), "IP").Interface().(net.IP)
 		o.QoS = append(o.QoS, s.unitOf(ip))
+	}
+	// ... and whatever the kernel maps hold (a bucket there shapes traffic whether or not the manager remembers it)
+	for _, name := range []string{"qos_egress", "qos_ingress"} {
+		km := in.maps[name]
+		if km == nil {
+			continue
+		}
+		d, err := bpfnative.Dump(km)
+		if err != nil {
+			panic(err)
+		}
+		for _, kv := range d {
+			u := s.unitOf(net.IP(kv[0]))
+			dup := false
+			for _, x := range o.QoS {
+				dup = dup || x == u
+			}
+			if !dup {
+				o.QoS = append(o.QoS, u)
+			}
+		}
 	}
 	return o
 }
